@@ -70,6 +70,7 @@ func runC03(c *Check) {
 	// ---- R2 slot disjointness
 	for _, n := range []string{"(*Location).key", "(*Mapping).key", "(*Function).key", "(*profileMerger).sampleKey"} {
 		c.slotDisjoint(tree[n])
+		c.numericTokensSeparated(tree[n])
 	}
 
 	// ---- R3 / R4 aliasing and input modification
@@ -703,4 +704,107 @@ func valueConditional(b *ssa.BasicBlock) string {
 		}
 	}
 	return ""
+}
+
+// numericTokensSeparated (R2): a number rendered as text (strconv.Format*, Itoa) has no
+// fixed width and no terminator, so in a key assembled by writing tokens into a buffer it
+// must be followed by a constant separator before the next token; likewise two
+// non-constant strings may not be concatenated directly when one of them is such a number.
+// Otherwise (line 0x12, column 0x3) and (line 0x1, column 0x23) produce the same key.
+func (c *Check) numericTokensSeparated(f *ssa.Function) {
+	p := c.P
+	isNumText := func(v ssa.Value) bool {
+		call, ok := v.(*ssa.Call)
+		if !ok || call.Call.StaticCallee() == nil {
+			return false
+		}
+		switch call.Call.StaticCallee().String() {
+		case "strconv.FormatInt", "strconv.FormatUint", "strconv.Itoa", "strconv.FormatFloat":
+			return true
+		}
+		return false
+	}
+	writeKind := func(ins ssa.Instruction) (recv ssa.Value, kind string) {
+		call, ok := ins.(*ssa.Call)
+		if !ok || call.Call.StaticCallee() == nil || len(call.Call.Args) < 1 {
+			return nil, ""
+		}
+		name := call.Call.StaticCallee().String()
+		if !strings.HasPrefix(name, "(*strings.Builder).") && !strings.HasPrefix(name, "(*bytes.Buffer).") {
+			return nil, ""
+		}
+		m := call.Call.StaticCallee().Name()
+		switch m {
+		case "WriteString", "WriteByte", "WriteRune", "Write":
+			if len(call.Call.Args) < 2 {
+				return nil, ""
+			}
+			a := call.Call.Args[1]
+			if _, isConst := a.(*ssa.Const); isConst {
+				return call.Call.Args[0], "sep"
+			}
+			if isNumText(a) {
+				return call.Call.Args[0], "num"
+			}
+			return call.Call.Args[0], "var"
+		case "String", "Len", "Grow", "Reset", "Bytes":
+			return call.Call.Args[0], "end"
+		}
+		return nil, ""
+	}
+	n := 0
+	forEachFuncAndAnon(f, func(g *ssa.Function) {
+		for _, b := range g.Blocks {
+			for i, ins := range b.Instrs {
+				recv, kind := writeKind(ins)
+				if kind == "num" {
+					n++
+					key := "encoding:" + fnName(g)
+					// the next write to the same buffer on every path
+					bad := ""
+					seen := map[*ssa.BasicBlock]bool{}
+					var walk func(x *ssa.BasicBlock, from int)
+					walk = func(x *ssa.BasicBlock, from int) {
+						for j := from; j < len(x.Instrs); j++ {
+							r2, k2 := writeKind(x.Instrs[j])
+							if k2 == "" || !sameCellOrValue(r2, recv) && r2 != recv {
+								continue
+							}
+							if k2 == "num" || k2 == "var" {
+								bad = p.relFile(x.Instrs[j].Pos())
+							}
+							if k2 == "end" && x.Instrs[j].(*ssa.Call).Call.StaticCallee().Name() != "String" {
+								continue
+							}
+							return
+						}
+						for _, sc := range x.Succs {
+							if !seen[sc] {
+								seen[sc] = true
+								walk(sc, 0)
+							}
+						}
+					}
+					walk(b, i+1)
+					if bad == "" {
+						c.ok("C03-R2", key, p.relFile(ins.Pos()), "a number written into the key buffer of "+fnName(g)+" is followed by a separator", "the next write on every path is a constant")
+					} else {
+						c.bad("C03-R2", key, p.relFile(ins.Pos()), fnName(g)+" writes a number as text into its key and then another token ("+bad+") without a separator: the digits run together, so different (function, line, column) combinations produce the same key and distinct stacks are merged")
+					}
+				}
+				// direct concatenation
+				if add, ok := ins.(*ssa.BinOp); ok && add.Op == token.ADD {
+					if bt, ok := add.Type().Underlying().(*types.Basic); ok && bt.Kind() == types.String {
+						_, cx := add.X.(*ssa.Const)
+						_, cy := add.Y.(*ssa.Const)
+						if !cx && !cy && (isNumText(add.X) || isNumText(add.Y)) {
+							n++
+							c.bad("C03-R2", "encoding:"+fnName(g), p.relFile(add.Pos()), fnName(g)+" concatenates a number rendered as text with another variable token without a separator")
+						}
+					}
+				}
+			}
+		}
+	})
+	_ = n
 }
